@@ -271,3 +271,48 @@ func specIsCtl(m hsms.Message) bool {
 //@ ensures [orphanrej] frame[4] == 0 && len(frame) == 10 && frame[5] == 7 ==> result && zzCalls("hsmsss.(*transport).sendRejectTransactionNotOpen") == 0 &&
 //@                    zzCalls("hsmsss.(*transport).sendReject") == 0 && zzCalls("hsms.(TransportRuntime).TCPDown") == 0
 //@ ensures [keep]     zzCalls("hsmsss.(*transport).handleSeparateReq") == 0 ==> result && zzCalls("hsms.(TransportRuntime).TCPDown") == 0
+
+// ---- C19: the linktest loop itself. One arbitrary iteration (between two passes of the loop head) is
+// specified relative to its own start: old(x) is x when the iteration began, zzCalls counts within it.
+// The metrics methods, the runtime and the suppression source are abstracted operations; every value they
+// return is arbitrary.
+
+//@ func (*ConnectionMetrics).incLinktestSend
+//@ operation
+
+//@ func (*ConnectionMetrics).incLinktestRecv
+//@ operation
+
+//@ func (*ConnectionMetrics).incLinktestErr
+//@ operation
+
+//@ func (*ConnectionMetrics).incLinktestSuppressed
+//@ operation
+
+//@ func (*ConnectionMetrics).incLinktestCredited
+//@ operation
+
+//@ func (*transport).sinceLastActivity
+//@ operation
+
+//@ func (*transport).monoNanos
+//@ operation
+
+//@ func (*transport).runLinktest
+//@ nosafety nil-deref nil-iface
+//@ requires t != nil
+//@ emits hsms.(TransportRuntime).State, hsms.(TransportRuntime).TCPDown, hsms.(TransportRuntime).WriteMessage, hsmsss.(*ConnectionMetrics).incLinktestErr, hsmsss.(*ConnectionMetrics).incLinktestRecv, hsmsss.(*ConnectionMetrics).incLinktestSend, hsmsss.(*ConnectionMetrics).incLinktestSuppressed, hsmsss.(*transport).sinceLastActivity, internal/pool.GetTimer
+//@ loop 1 invariant [run]      0 <= fails && (threshold > 0 ==> fails < threshold) && (threshold <= 0 ==> fails == 0)
+//@ loop 1 preserves [noprobe]  zzCalls("hsmsss.(*ConnectionMetrics).incLinktestSend") == 0 ==> fails == old(fails) && recvAtLastFail == old(recvAtLastFail)
+//@ loop 1 preserves [oneprobe] zzCalls("hsmsss.(*ConnectionMetrics).incLinktestSend") <= 1 &&
+//@                             zzCalls("hsms.(TransportRuntime).WriteMessage") == zzCalls("hsmsss.(*ConnectionMetrics).incLinktestSend")
+//@ loop 1 preserves [answered] zzCalls("hsmsss.(*ConnectionMetrics).incLinktestRecv") == 1 ==> fails == 0 && zzCalls("hsmsss.(*ConnectionMetrics).incLinktestErr") == 0
+//@ loop 1 preserves [outcome]  zzCalls("hsmsss.(*ConnectionMetrics).incLinktestSend") == 1 ==>
+//@                             zzCalls("hsmsss.(*ConnectionMetrics).incLinktestRecv") + zzCalls("hsmsss.(*ConnectionMetrics).incLinktestErr") == 1
+//@ loop 1 preserves [counts]   sr == nil && zzCalls("hsmsss.(*ConnectionMetrics).incLinktestErr") == 1 ==> fails == old(fails)+1 && fails < threshold
+//@ loop 1 preserves [bounded]  zzCalls("hsmsss.(*ConnectionMetrics).incLinktestErr") == 1 ==> (threshold > 0 ==> fails < threshold) && fails <= old(fails)+1
+//@ loop 1 preserves [quiet]    sr != nil && zzCalls("hsmsss.(*ConnectionMetrics).incLinktestSend") == 1 ==>
+//@                             zzCalls("hsmsss.(*ConnectionMetrics).incLinktestSuppressed") == 0 && zzCalls("hsmsss.(*transport).sinceLastActivity") == 1
+//@ loop 1 preserves [suppress] zzCalls("hsmsss.(*ConnectionMetrics).incLinktestSuppressed") == 1 ==> sr != nil && zzCalls("hsmsss.(*ConnectionMetrics).incLinktestSend") == 0
+//@ loop 1 preserves [nodrop]   zzCalls("hsms.(TransportRuntime).TCPDown") == 0
+//@ ensures [down] zzCalls("hsms.(TransportRuntime).TCPDown") <= 1
